@@ -94,6 +94,8 @@ def items(tier):
           ("dat-semicolon", "log.dat", ";", ".3f", [[2], [2, 3]]),
           ("txt-fmt-e", "log.txt", " | ", "e", [[], [2]]),
           ("txt-vec1", "log.txt", None, None, [[1]]),
+          ("txt-transposed-view", "log.txt", None, None, [[3, 2, "T"], []]),
+          ("csv-transposed-view", "log.csv", None, None, [[2], [2, 3, "T"]]),
           ("txt-in-csv-dir", "run.csv.d/log.txt", None, None, [[], [2]])]
     for name, f, sep, fmt, sig in sc:
         out.append(dict(kind="scalar", id="scalar-" + name, file=f, separator=sep, fmt=fmt, signals=sig, calls=b["scalar_calls"]))
@@ -651,7 +653,8 @@ def sc_scalar(V, P, cfg):
     K = Chk(P)
     fmt = cfg["fmt"] or ".10e"
     sep_exp = "," if cfg["file"].lower().endswith(".csv") else (cfg["separator"] or "\t")
-    shapes = [tuple(s) for s in cfg["signals"]]
+    transposed = [len(s) > 0 and s[-1] == "T" for s in cfg["signals"]]
+    shapes = [tuple(x for x in s if x != "T") for s in cfg["signals"]]
     it = zint(V, "iter", lo=0, hi=10 ** 6, default=5)
     tmp = _mkdtemp()
     obs = {}
@@ -660,6 +663,22 @@ def sc_scalar(V, P, cfg):
         """States of all signals for one call + the expected printed columns in order."""
         states, cols = [], []
         for q, shp in enumerate(shapes):
+            if transposed[q]:
+                # a transposed VIEW (not C-contiguous): NumPy's iterators walk it in memory order; the file is checked
+                # through the header names (each column must hold the entry its header names)
+                base_shape = tuple(reversed(shp))
+                if V.symbolic:
+                    base = np.empty(base_shape, dtype=object)
+                    for idx in _ref_order(base_shape):
+                        base[idx] = TokVal("s%d_%s_call%s" % (q, "_".join(map(str, idx)), call))
+                else:
+                    base = np.empty(base_shape, dtype=float)
+                    for r, idx in enumerate(_ref_order(base_shape)):
+                        base[idx] = 10.0 * q + (call if isinstance(call, int) else 7) * 0.5 + 0.125 * r
+                st = base.T
+                cols.extend([None] * len(_ref_order(shp)))
+                states.append(st)
+                continue
             if V.symbolic:
                 mk = lambda idx: TokVal("s%d_%s_call%s" % (q, "_".join(map(str, idx)), call))
                 if shp == ():
@@ -701,7 +720,7 @@ def sc_scalar(V, P, cfg):
                 for s, v in zip(sigs, st):
                     s.state = v
                 m.response()
-                exp_rows.append((k, cols))
+                exp_rows.append((k, cols, st))
             text1 = _read(rec, saveto, V)
             # arbitrary iteration counter: the header is (re)written exactly at iteration 0
             st, cols_k = fresh("k")
@@ -738,8 +757,30 @@ def sc_scalar(V, P, cfg):
                     okh = okh and header[pos].startswith("sig%d" % q)
                     pos += 1
             K.holds("header-in-signal-order", okh, "scalar-header", info=lines[0])
-        for k, (itk, cols) in enumerate(exp_rows):
+        for k, (itk, cols, st_k) in enumerate(exp_rows):
             row = lines[1 + k].split(sep_exp)
+            if len(header) == ncols and len(row) == ncols:
+                # every column holds the entry that its header names: "<tag>[i, j]" -> state[i, j]
+                pos, okn, bad = 1, True, None
+                for q, shp in enumerate(shapes):
+                    for _ in _ref_order(shp):
+                        hname = header[pos]
+                        if shp != () and len(_ref_order(shp)) > 1:
+                            mm = re.match(r"^sig%d\[([0-9, ]*)\]$" % q, hname)
+                            if mm is None:
+                                okn, bad = False, (hname, "unparsable")
+                            else:
+                                idx = tuple(int(t) for t in mm.group(1).split(",") if t.strip() != "")
+                                try:
+                                    want = format(st_k[q][idx] if V.symbolic else float(st_k[q][idx]), fmt)
+                                except Exception as e:
+                                    want = "<%s>" % type(e).__name__
+                                if row[pos] != want:
+                                    okn, bad = False, (hname, row[pos], want)
+                        pos += 1
+                K.holds("row[%d]-column-holds-the-entry-its-header-names" % k, okn, "scalar-header-names", info=bad)
+            if any(c is None for c in cols):
+                cols = [row[1 + j] if c is None else c for j, c in enumerate(cols)] if len(row) == ncols else cols
             K.holds("row[%d]-columns" % k, len(row) == ncols, "scalar-row",
                     info=dict(row=lines[1 + k], separator=sep_exp, fields=len(row), expected=ncols))
             K.holds("row[%d]-iteration" % k, row[0] == str(itk), "scalar-row", info=row[0])
@@ -764,7 +805,8 @@ def sc_scalar(V, P, cfg):
                 K.eq("step:row-iteration", t[0] if t is not None else int(row[0]), it, "scalar-row")
             else:
                 K.holds("step:row-iteration", row[0] == str(it), "scalar-row", info=row[0])
-            K.holds("step:row-values", row[1:] == cols_k, "scalar-row", info=dict(got=row[1:8], expected=cols_k[:7]))
+            if not any(c is None for c in cols_k):
+                K.holds("step:row-values", row[1:] == cols_k, "scalar-row", info=dict(got=row[1:8], expected=cols_k[:7]))
         K.eq("step:counter-incremented", m.iter, it + 1, "scalar-step")
         obs["iter_after"] = _obs(m.iter)
     finally:
